@@ -2,10 +2,10 @@ SPECIFICATION Spec
 CONSTANTS
   Threads = {1, 2}
   Objs = {1}
-  MaxOps = 3
-  MaxOwn = 2
-  InitOwn = 1
+  MaxOps = 2
+  MaxOwn = 1
+  InitOwn = 0
   CreatorRefs = 1
-  IncMode = "split"
+  IncMode = "fastpath"
 INVARIANTS TypeOK NotWhileReferenced NoUseAfterFree
 CHECK_DEADLOCK FALSE
